@@ -170,7 +170,8 @@ def _convert_elem(e, dt):
         if k in 'iu':
             return _py_int_to_bv(_sstr.to_int(e), dt)
         if k == 'f':
-            return R(core._frac(_sstr.to_float(e)))
+            f = _sstr.to_float(e)
+            return f if isinstance(f, Sym) else R(core._frac(f))
     if k == 'f':
         if isinstance(e, R):
             return e
